@@ -9,12 +9,15 @@
    case <id> <interp|gen|lazy>
    import <name> | forward <name> | export <name> | proto <name> | func <name>
    efunc <name> <ty> <decimal bit pattern>      expression function returning that constant
-   lfunc <name> <nlab>                          function with labels 0..nlab-1 (`ret 100+j`), entered by jmpi
+   lfunc <name> <nlab> [<nbase>]                function with labels 0..nlab-1 (`ret 100+j`), entered by jmpi;
+                                                base-only labels b0..b<nbase-1>: `bj: ret 200+j` is placed right
+                                                after label j's `ret`, so no branch or fall-through reaches it and
+                                                only a difference-form lref (as its second label) mentions it
    data <name|-> <ty> <nel> <hex|->
    bss <name|-> <len>
    ref <name|-> <k> <disp>                      k = index of an earlier line (item, func, import, forward, export)
    expr <name|-> <k>                            k = index of an earlier efunc line
-   lref <name|-> <k> <lab> <lab2|-> <disp>      k = index of an lfunc line (earlier or later)
+   lref <name|-> <k> <lab> <lab2|b<j>|-> <disp> k = index of an lfunc line (earlier or later)
    afunc <name> <k> <disp>                      expression function returning (address of line k's item) + disp;
                                                 an `expr` line may refer to it (printed as delta like a ref)
    module <a-first|b-first>                     the following lines form a second module; an import there whose
@@ -85,8 +88,8 @@ typedef struct {
   char *tok[MAX_TOK];
   int ntok;
   MIR_item_t item;
-  MIR_label_t labs[MAX_LAB];
-  int nlab;
+  MIR_label_t labs[MAX_LAB], blabs[MAX_LAB];
+  int nlab, nbase;
   int mod; /* 0 = first module, 1 = second */
 } cline_t;
 static cline_t lines[MAX_LINES];
@@ -204,6 +207,10 @@ static void build_item (MIR_context_t ctx, int i) {
     for (int j = 0; j < l->nlab; j++) {
       MIR_append_insn (ctx, l->item, l->labs[j]);
       MIR_append_insn (ctx, l->item, MIR_new_ret_insn (ctx, 1, MIR_new_int_op (ctx, 100 + j)));
+      if (j < l->nbase) { /* code nothing jumps or falls into */
+        MIR_append_insn (ctx, l->item, l->blabs[j]);
+        MIR_append_insn (ctx, l->item, MIR_new_ret_insn (ctx, 1, MIR_new_int_op (ctx, 200 + j)));
+      }
     }
     MIR_finish_func (ctx);
   } else if (!strcmp (k, "data")) {
@@ -225,7 +232,9 @@ static void build_item (MIR_context_t ctx, int i) {
   } else if (!strcmp (k, "lref")) {
     int t = atoi (l->tok[2]);
     MIR_label_t lab = lines[t].labs[atoi (l->tok[3])];
-    MIR_label_t lab2 = strcmp (l->tok[4], "-") == 0 ? NULL : lines[t].labs[atoi (l->tok[4])];
+    MIR_label_t lab2 = strcmp (l->tok[4], "-") == 0 ? NULL
+                       : l->tok[4][0] == 'b'        ? lines[t].blabs[atoi (l->tok[4] + 1)]
+                                                    : lines[t].labs[atoi (l->tok[4])];
     l->item = MIR_new_lref_data (ctx, opt_name (l->tok[1]), lab, lab2, strtoll (l->tok[5], NULL, 10));
   } else {
     fprintf (stderr, "unknown line kind %s\n", k);
@@ -259,10 +268,21 @@ static int target_addr_is_external (int t) {
   return !(d >= 0 && lines[d].mod != lines[t].mod);
 }
 
+static int case_item_p (MIR_item_t item) {
+  for (int i = 0; i < nlines; i++)
+    if (lines[i].item == item) return 1;
+  return 0;
+}
+
+/* position of an item among the items the case created (MIR_link may add named constant data items of
+   its own anywhere in the list, e.g. before the function that uses a float constant; they are their own
+   sections and are not counted) */
 static int item_pos (MIR_module_t m, MIR_item_t item) {
   int pos = 0;
-  for (MIR_item_t it = DLIST_HEAD (MIR_item_t, m->items); it != NULL; it = DLIST_NEXT (MIR_item_t, it), pos++)
+  for (MIR_item_t it = DLIST_HEAD (MIR_item_t, m->items); it != NULL; it = DLIST_NEXT (MIR_item_t, it)) {
     if (it == item) return pos;
+    if (case_item_p (it)) pos++;
+  }
   return -1;
 }
 
@@ -303,14 +323,14 @@ static int label_addr (int t, int lab, int64_t *res) {
   return 0;
 }
 
-/* section heads of a module (only among the items the case created: link-time temporaries follow them) */
+/* section heads of a module, among the items the case created */
 static void print_secs (MIR_module_t m) {
-  int pos = 0, n = 0;
-  for (int i = 0; i < nlines; i++)
-    if (!is_kind (i, "module") && lines[i].item != NULL && lines[i].item->module == m) n++;
-  for (MIR_item_t it = DLIST_HEAD (MIR_item_t, m->items); it != NULL && pos < n;
-       it = DLIST_NEXT (MIR_item_t, it), pos++)
+  int pos = 0;
+  for (MIR_item_t it = DLIST_HEAD (MIR_item_t, m->items); it != NULL; it = DLIST_NEXT (MIR_item_t, it)) {
+    if (!case_item_p (it)) continue;
     if (it->section_head_p) printf ("sec %d size=%ld\n", pos, arec_size (it->addr));
+    pos++;
+  }
 }
 
 static void run_case (const char *id, const char *engine) {
@@ -318,7 +338,7 @@ static void run_case (const char *id, const char *engine) {
   MIR_module_t m, mods[2] = {NULL, NULL};
   int nmods = 1, b_first_p = 0;
   int gen_p = strcmp (engine, "interp") != 0;
-  int regen_p = strcmp (engine, "regen") == 0;
+  int regen_p = strcmp (engine, "regen") == 0, bb_p = strcmp (engine, "bb") == 0;
 
   interp_after_gen_p = 0;
   printf ("case %s\n", id);
@@ -332,7 +352,9 @@ static void run_case (const char *id, const char *engine) {
   for (int i = 0; i < nlines; i++)
     if (is_kind (i, "lfunc")) {
       lines[i].nlab = atoi (lines[i].tok[2]);
+      lines[i].nbase = lines[i].ntok > 3 ? atoi (lines[i].tok[3]) : 0;
       for (int j = 0; j < lines[i].nlab; j++) lines[i].labs[j] = MIR_new_label (ctx);
+      for (int j = 0; j < lines[i].nbase; j++) lines[i].blabs[j] = MIR_new_label (ctx);
     }
   mods[0] = MIR_new_module (ctx, "m");
   for (int i = 0; i < nlines; i++) {
@@ -357,6 +379,7 @@ static void run_case (const char *id, const char *engine) {
   MIR_link (ctx,
             !gen_p                          ? MIR_set_interp_interface
             : strcmp (engine, "lazy") == 0 ? MIR_set_lazy_gen_interface
+            : bb_p                         ? MIR_set_lazy_bb_gen_interface
                                            : MIR_set_gen_interface,
             NULL);
   /* make every lfunc ready for execution (interp and lazy gen prepare on first call) */
@@ -420,6 +443,20 @@ static void run_case (const char *id, const char *engine) {
         verdict = "unregistered"; /* the slot is never written: do not jump through it */
       } else if (strcmp (l->tok[4], "-") == 0) {
         verdict = call_lfunc (lines[t].item, v - disp) == 100 + lab ? "ok" : "bad";
+      } else if (l->tok[4][0] == 'b') {
+        /* the base label has no address of its own to compare with (a probe would make it reachable):
+           the address the cell implies for it must lie between the two ordinary labels around it
+           (interp and whole-function generators keep the code order; bb versions have no order) */
+        int j = atoi (l->tok[4] + 1);
+        int64_t a1, lo, hi, unit = gen_p ? 1 : (int64_t) sizeof (MIR_val_t);
+        if (!label_addr (t, lab, &a1) || !label_addr (t, j, &lo)) {
+          verdict = "unverified";
+        } else {
+          int64_t ax = a1 - (v - disp) * unit;
+          verdict = bb_p                                                                    ? "ok"
+                    : ax > lo && (!(j + 1 < lines[t].nlab && label_addr (t, j + 1, &hi)) || ax < hi) ? "ok"
+                                                                                             : "bad";
+        }
       } else {
         int64_t a1, a2, unit = gen_p ? 1 : (int64_t) sizeof (MIR_val_t);
         if (!label_addr (t, lab, &a1) || !label_addr (t, atoi (l->tok[4]), &a2))
